@@ -292,12 +292,51 @@ theorem reqVals_map_strip : ∀ es : List Xml, reqVals (es.map stripX) = reqVals
 @[simp] theorem imageRun_strip (cfg : PartCfg) (x : Xml) (n : String) : imageRun cfg (stripX x) n = imageRun cfg x n := by
   simp [imageRun]
 
+mutual
+theorem descTagged_strip (q : QName) : (x : Xml) → x.isElem = true → descTagged q (stripX x) = (descTagged q x).map stripX
+  | .elem i p t m a tx tl ks, _ => by
+    simp only [stripX, descTagged, List.map_append, descTaggedL_strip q ks]
+    split <;> simp [stripX]
+  | .comment _ _, h => by simp [Xml.isElem] at h
+  | .pi _, h => by simp [Xml.isElem] at h
+theorem descTaggedL_strip (q : QName) : (ks : List Xml) → descTaggedL q (stripL ks) = (descTaggedL q ks).map stripX
+  | [] => rfl
+  | k :: ks => by
+    cases k with
+    | elem i p t m a tx tl kk =>
+      simp only [stripL, Xml.isElem, if_true, descTaggedL, List.map_append,
+        descTagged_strip q (.elem i p t m a tx tl kk) rfl, descTaggedL_strip q ks]
+    | comment c tl =>
+      simp only [stripL, Xml.isElem, Bool.false_eq_true, if_false, descTaggedL, descTagged, List.nil_append]
+      exact descTaggedL_strip q ks
+    | pi tl =>
+      simp only [stripL, Xml.isElem, Bool.false_eq_true, if_false, descTaggedL, descTagged, List.nil_append]
+      exact descTaggedL_strip q ks
+end
+
+theorem foldIds_strip (f : DC → Str → M DC) : ∀ (ms : List Xml) (s : DC), foldIds f s (ms.map stripX) = foldIds f s ms
+  | [], s => rfl
+  | m :: ms, s => by
+    simp only [List.map_cons, foldIds, stripX_attrReq]
+    cases m.attrReq (lit "w") (lit "id") with
+    | error e => rfl
+    | ok id =>
+      simp only [ok_bind]
+      cases f s id with
+      | error e => rfl
+      | ok s1 => simp only [ok_bind]; exact foldIds_strip f ms s1
+
+theorem openHyperlink_strip (cfg : PartCfg) (s : DC) (x : Xml) (roots roots' : List (List Nest))
+    (hr : rootsText roots' = rootsText roots) : openHyperlink cfg s (stripX x) roots' = openHyperlink cfg s x roots := by
+  unfold openHyperlink
+  simp only [hr, stripX_wq, stripX_kids, descTaggedL_strip, foldIds_strip, linkRun_strip]
+
 theorem openStep_strip (cfg : PartCfg) (s : DC) (x : Xml) (c : Bool) (roots roots' : List (List Nest))
     (hr : rootsText roots' = rootsText roots) (hn : noTails x = true) :
     openStep cfg s (stripX x) c roots' = openStep cfg s x c roots := by
   unfold openStep
   simp only [stripX_ptag, openParagraph_strip, commenceRun_strip, stripX_attrReq, stripX_text, itertext_strip x hn,
-    symCode_strip, noteLabel_strip, hr, linkRun_strip, checkBoxEntry_strip, ddListEntry_strip, imageRun_strip, stripX_attrGet]
+    symCode_strip, noteLabel_strip, openHyperlink_strip cfg s x roots roots' hr, checkBoxEntry_strip, ddListEntry_strip, imageRun_strip, stripX_attrGet]
 
 @[simp] theorem closeTableCell_strip (dup : Bool) (s : DC) (tc : Xml) : closeTableCell dup s (stripX tc) = closeTableCell dup s tc := by
   simp [closeTableCell]
